@@ -21,7 +21,7 @@ import time
 from .. import bounded, common, spec
 from ..common import PROVED, REFUTED, Report, res, run_pool
 
-HEADER = "from qlasskit import qlassf, Qint, Qint2, Qint4, Qfixed, Qchar, Qlist\nfrom typing import Tuple\n\n"
+HEADER = "from qlasskit import qlassf, Parameter, Qint, Qint2, Qint4, Qfixed, Qchar, Qlist\nfrom typing import Tuple\n\n"
 
 FUNCS = {
     "and2": "@qlassf\ndef and2(a: bool, b: bool) -> bool:\n    return a and b\n",
@@ -36,10 +36,15 @@ FUNCS = {
     "pair": "@qlassf\ndef pair(a: bool, b: bool) -> Tuple[bool, bool]:\n    return (a and b, a or b)\n",
     "add": "@qlassf\ndef add(a: Qint[2], b: Qint[2]) -> Qint[2]:\n    return a + b\n",
     "eq3": "@qlassf\ndef eq3(a: Qint[2]) -> bool:\n    return a == 3\n",
+    # functions that are NOT decorated definitions of the script: built from a source string, and obtained by binding a parameter
+    "fromstr": "fromstr = qlassf('def fromstr(a: bool, b: bool) -> bool:\\n    return a and not b')\n",
+    "bound": "_unbound = qlassf('def bound(c: Parameter[bool], a: bool, b: bool) -> bool:\\n    return (a or b) and c')\nbound = _unbound.bind(c=True)\n",
 }
 
 SCRIPTS = [["and2"], ["or3"], ["lit"], ["nlit"], ["const"], ["xor3"], ["maj"], ["shared"], ["gt"], ["pair"], ["add"], ["eq3"],
-           ["lit", "maj"], ["xor3", "and2", "gt"], ["pair", "nlit"]]
+           ["lit", "maj"], ["xor3", "and2", "gt"], ["pair", "nlit"], ["fromstr"], ["bound"], ["fromstr", "and2"]]
+# how the script reaches the tool / where the output goes (the statement speaks of scripts, not of file names)
+IO_MODES = [("stdin", "stdout"), ("script.py", "stdout"), ("script.txt", "stdout"), ("noextension", "stdout"), ("dir.v2/my-script.py", "out.txt"), ("stdin", "out.txt")]
 FORMS = [None, "anf", "cnf", "dnf", "nnf"]
 FORMATS = ["sympy", "dimacs"]
 
@@ -131,13 +136,14 @@ def check_dimacs(text, expr_table, names, mask, free_names):
 
 
 def job_bexp(a):
-    si, form, fmt, entry = a
+    si, form, fmt, entry = a[:4]
+    io_mode = a[4] if len(a) > 4 else ("stdin", "stdout")
     names_ = SCRIPTS[si]
     t0 = time.time()
     from qlasskit.tools import py2bexp
     from qlasskit.tools.utils import parse_str
     text = script_text(names_)
-    label = f"{'+'.join(names_)},form={form},format={fmt},entry={entry}"
+    label = f"{'+'.join(names_)},form={form},format={fmt},entry={entry}" + ("" if io_mode == ("stdin", "stdout") else f",input={io_mode[0]},output={io_mode[1]}")
     name = f"C17.py2bexp.main[{label}]"
     base = dict(strength="bounded", backend="truth-table")
     argv = ["py2bexp"]
@@ -146,10 +152,26 @@ def job_bexp(a):
     argv += ["-t", fmt]
     if entry:
         argv += ["-e", entry]
+    work = None
+    if io_mode != ("stdin", "stdout"):
+        import tempfile
+        work = tempfile.mkdtemp(prefix="c17_", dir=common.private_tmp())
+        if io_mode[0] != "stdin":
+            ip = os.path.join(work, io_mode[0])
+            os.makedirs(os.path.dirname(ip), exist_ok=True)
+            open(ip, "w").write(text)
+            argv += ["-i", ip]
+        if io_mode[1] != "stdout":
+            argv += ["-o", os.path.join(work, io_mode[1])]
     try:
-        with cli(argv, text) as (out, err):
+        with cli(argv, text if io_mode[0] == "stdin" else "") as (out, err):
             py2bexp.main()
         printed = out.getvalue()
+        if io_mode[1] != "stdout":
+            op_ = os.path.join(work, io_mode[1])
+            if not os.path.exists(op_):
+                return [res(name, REFUTED, replayed=True, replay=dict(argv=argv, script=text, observed="the output file was not written", stdout=printed[:300]), **base)]
+            printed = open(op_).read()
     except SystemExit as ex:
         return [res(name, REFUTED, replayed=True, replay=dict(argv=argv, script=text, observed=f"SystemExit {ex.code}"), **base)]
     except Exception as ex:  # noqa
@@ -247,7 +269,10 @@ def job_qasm(a):
         return [res(name, REFUTED, replayed=True, replay=dict(argv=argv, script=text, observed=f"raises {type(ex).__name__}: {ex}"[:300]), **base)]
     if target is None:
         return [res(name, PROVED, nontrivial=False, **base)]
-    qf = dict(parse_str(text))[target]
+    found = dict(parse_str(text))
+    if target not in found:
+        return [res(name, REFUTED, replayed=True, replay=dict(argv=argv, script=text, observed=f"parse_str finds {sorted(found)}", expected=f"the function {target}"), **base)]
+    qf = found[target]
     qf.compile(compiler=compiler)
     exp = QasmExporter(version=3 if version == "3.0" else 2).export(qf.circuit(), mode="circuit")
     if printed.rstrip("\n") != str(exp).rstrip("\n"):
@@ -277,6 +302,10 @@ def run(tier, only=None):
             for compiler in ("internal",) + (("recompiler",) if tier == "thorough" else ()):
                 for version in ("2.0", "3.0"):
                     jobs.append((job_qasm, (si, entry, compiler, version)))
+    for si in (0, 7, 8, 15, 16):
+        for mode in IO_MODES[1:]:
+            for form, fmt in ((None, "sympy"), ("cnf", "dimacs"), ("dnf", "sympy")):
+                jobs.append((job_bexp, (si, form, fmt, None, mode)))
     for sh in DIMACS_SHAPES:
         jobs.append((job_dimacs, (sh,)))
     rep.add(run_pool(_dispatch, jobs, chunksize=2))
